@@ -131,6 +131,15 @@ func init() {
 				}
 			}
 		}
+		// cycles whose rate is negative (a profile dipping below zero) between ordinary ones: they hand out nothing and
+		// leave nothing behind for the cycles after them
+		for n := 2; n <= 4; n++ {
+			in := time.Duration(n) * 100 * ms
+			for _, rates := range [][]int{{5, -3, 5}, {-2, 4, 0, 7}, {3, -7, -1, 6}, {0, -1, 9}, {8, -8, 8, -8}} {
+				w.write(runC12(c, "regular", in, rates, nil, len(rates)*n*2))
+				w.write(runC12(c, "random", in, rates, nil, len(rates)*n*2))
+			}
+		}
 		// random distribution with scripted draws incl. out-of-range and zero
 		for n := 1; n <= maxN; n++ {
 			in := time.Duration(n) * 100 * ms
